@@ -36,6 +36,11 @@ def seeded():
         tot += 1
         res = m.get("checks_run", {}).get("results", [])
         detected = m.get("checks_run", {}).get("detected")
+        fe = m.get("final_eval") or {}
+        late = False
+        if not detected and fe.get("detected"):
+            # missed at first evaluation, caught by the final evaluation after strengthening
+            res, detected, late = fe.get("results", []), True, True
         det += 1 if detected else 0
         by = ", ".join(sorted(set(r["check"] + ":" + (re.search(r"in check '([^']+)'", r.get("first","")) or re.search(r"()", "")).group(1) for r in res if r.get("rc") == 1)))
         hist = m.get("history", "")
@@ -44,6 +49,7 @@ def seeded():
         summ = m.get("summary", "")
         r = ("**caught** by " + by) if detected else "**missed**"
         if hist: r += " — " + hist
+        elif late: r += " — missed by the check as first evaluated (exit 0); caught after the check was strengthened for the class of the miss (final evaluation, see notes)"
         out.append(f"| `{m['id']}` {summ} | {needs} | {r} |")
     return f"{tot} confirmed seeded changes, {det} caught by the registered quick checks.\n\n" + "\n".join(out) + "\n"
 
